@@ -301,12 +301,13 @@ pub(crate) fn quote<'a>(s: &'a str, options: &QuoteOptions) -> Cow<'a, str> {
         return ansi_c_quote(s).into();
     }
 
-    // A leading `~` or `#` is only special at the start of a word (tilde expansion, comment).
+    // `#` is only special at the start of a word (comment), `~` at the start and after `=` or `:`
+    // (tilde expansion, also in arguments that look like assignments).
     let use_default_quotes = !use_ansi_c_quotes
         && (options.always_quote
             || s.is_empty()
             || s.contains(needs_escaping)
-            || s.starts_with(['~', '#']));
+            || has_positionally_special_char(s));
 
     if !use_default_quotes {
         return s.into();
@@ -355,18 +356,39 @@ fn backslash_escape(s: &str) -> Cow<'_, str> {
     if s.is_empty() {
         // An empty string must be represented as '' to be a valid shell word.
         Cow::Owned("''".to_string())
-    } else if !s.chars().any(needs_escaping) && !s.starts_with(['~', '#']) {
+    } else if !s.chars().any(needs_escaping) && !has_positionally_special_char(s) {
         Cow::Borrowed(s)
     } else {
         let mut output = String::with_capacity(s.len());
-        for (i, c) in s.chars().enumerate() {
-            if needs_escaping(c) || (i == 0 && matches!(c, '~' | '#')) {
+        let mut prev = None;
+        for c in s.chars() {
+            if needs_escaping(c) || is_positionally_special(prev, c) {
                 output.push('\\');
             }
             output.push(c);
+            prev = Some(c);
         }
         Cow::Owned(output)
     }
+}
+
+/// `#` starts a comment at the start of a word; `~` is tilde-expanded at the start of a word and
+/// after `=` or `:`.
+fn is_positionally_special(prev: Option<char>, c: char) -> bool {
+    match c {
+        '#' => prev.is_none(),
+        '~' => matches!(prev, None | Some('=' | ':')),
+        _ => false,
+    }
+}
+
+fn has_positionally_special_char(s: &str) -> bool {
+    let mut prev = None;
+    s.chars().any(|c| {
+        let special = is_positionally_special(prev, c);
+        prev = Some(c);
+        special
+    })
 }
 
 fn single_quote(s: &str) -> Cow<'_, str> {
